@@ -169,6 +169,33 @@ def h1(prog, rep):
             if callee == "heapify":
                 ok = ok and norm(cs[0].arg(2))[0] == "." and norm(cs[0].arg(2))[2] == "nelems"
         rep.check(ok, "H1-forward", "%s sifts position %s with %s" % (name, pos, callee), f.loc, "", function=name, construct="sift")
+        # ... on every path: a return that the sift has not preceded is reached only where the position provably has nothing to
+        # be compared with (no children below it / no parent above it).  One comparison with one child says nothing of the other
+        if ok:
+            from .. import poly
+            from ..poly import Lin
+            SIFTED = Lin.var(("$sifted",))
+
+            def done(A, call, st, cs):
+                return list(A._kill(list(cs), lambda v: v == ("$sifted",))) + poly.cons("==", SIFTED, Lin.const(1))
+            A = poly.Analysis(f, assume=[("==", SIFTED, Lin.const(0))], quiet={callee}, post={callee: done}).run()
+            for r in f.returns():
+                st = A.state_before(r)
+                if st is None:
+                    continue
+                p = Lin.const(0) if pos == 0 else Lin.var(("v", f.params[1]["name"], f.params[1]["id"]))
+                okr = True
+                for P in (st if poly._is_disj(st) else [st]):
+                    if A._entailsP(P, poly.cons("==", SIFTED, Lin.const(1))):
+                        continue
+                    if callee == "heapifyup" and A._entailsP(P, poly.cons("<=", p, Lin.const(0))):
+                        continue
+                    if callee == "heapify" and A._entailsP(P, poly.cons(">=", p.scale(2) + Lin.const(1), Lin.var((".", ("*", ("v", f.params[0]["name"], f.params[0]["id"])), "nelems")))):
+                        continue
+                    okr = False
+                rep.check(okr, "H1-forward", "%s: no return without the sift unless position %s has no %s" % (name, pos, "children" if callee == "heapify" else "parent"), r.where,
+                          "a path leaves %s without calling %s, and nothing on it shows that the position has no %s: the element stays where its new key does not belong"
+                          % (name, callee, "children" if callee == "heapify" else "parent"), function=name, construct="sift-always")
 
 
 def h4(prog, rep):
